@@ -541,7 +541,28 @@ fn cases(tier: Tier) -> Vec<Case> {
     // (quick tier: the small sub-scenes only)
     let small = move |d: &str| tier == Tier::Thorough || !(d.contains("full-scene") || d.contains("sub=timers+children") || d.contains("sub=bystander+registry") || d.contains("sub=awaiters+owner"));
     let no_timeout = move |d: &str| !d.contains("Timeout") && small(d);
-    crate::check::widen(&|| base_cases(tier), &no_timeout, &small, Some(&no_timeout))
+    let mut v = crate::check::widen(&|| base_cases(tier), &no_timeout, &small, Some(&no_timeout));
+    // a child that crashes is its own failure: its siblings under the same parent keep getting
+    // the parent's broadcasts, every one of them (the tree scenes of C16, reporting under C06)
+    {
+        use crate::props::{c02::Cause, c16::{Node, Reg, S}};
+        let root = Node { role: 0, parent: None, reg: Reg::Add, outside: false, outside_stops: false };
+        let crashing = |role| Node { role, parent: Some(0), reg: Reg::Ty(1), outside: true, outside_stops: true };
+        let healthy = |role| Node { role, parent: Some(0), reg: Reg::Ty(1), outside: false, outside_stops: false };
+        for tree in [vec![root, crashing(1), healthy(2)], vec![root, healthy(1), crashing(2), healthy(3)], vec![root, crashing(1), crashing(2), healthy(3)]] {
+            for cause in [Cause::StopClient, Cause::LastDrop] {
+                for mb in [Mailbox::U, Mailbox::B(1)] {
+                    v.push(Case {
+                        desc: format!("containment [a child crashes, its siblings keep getting the broadcasts] children={} cause={cause:?} mailbox={}", tree.len() - 1, mb.name()),
+                        exec: ExecCfg { horizon: 30, ..ExecCfg::default() },
+                        bound: Some(if tier == Tier::Quick { 3 } else { 6 }),
+                        scene: Box::new(S { nodes: tree.clone(), cause, bcasts: vec![(1, 601), (1, 603)], mailbox: mb, pid: "C06", restart_root: false, slow_stop: None, child_timers: false, late_registration: false }),
+                    });
+                }
+            }
+        }
+    }
+    v
 }
 
 pub fn property() -> Property {
